@@ -6,9 +6,13 @@ from pathlib import Path
 VERIF = Path(__file__).resolve().parents[1]
 prop, src = sys.argv[1], Path(sys.argv[2])
 tag = sys.argv[3] if len(sys.argv) > 3 else "a"
+benign = tag.startswith("n")      # property-preserving change: demo must exit 0 before and after
 for d in sorted(p for p in src.iterdir() if p.is_dir() and (p / "patch.diff").exists()):
     r = json.loads(subprocess.run([str(VERIF / "tools/seeded.py"), "confirm", str(d)], capture_output=True, text=True).stdout)
     sid = f"{prop}-{tag}{d.name}"
+    if benign:
+        r["ok"] = ("why" not in r and not r["new_failures"] and r["tests_patched"].split(" in ")[0] == r["tests_clean"].split(" in ")[0]
+                   and r["demo_clean_exit"] == 0 and r["demo_patched_exit"] == 0)
     print(sid, "CONFIRMED" if r["ok"] else "REJECTED", {k: r.get(k) for k in ("tests_patched", "demo_clean_exit", "demo_patched_exit", "why", "new_failures")})
     if not r["ok"]:
         continue
@@ -16,7 +20,7 @@ for d in sorted(p for p in src.iterdir() if p.is_dir() and (p / "patch.diff").ex
     dst.mkdir(parents=True, exist_ok=True)
     shutil.copy(d / "patch.diff", dst / "patch.diff")
     shutil.copy(d / "demo.py", dst / "demo.py")
-    meta = {"property": prop, "source": "independent sub-agent given only the property text and a scratch worktree",
+    meta = {"property": prop, "benign": benign, "source": "independent sub-agent given only the property text and a scratch worktree",
             "description": (d / "meta.txt").read_text() if (d / "meta.txt").exists() else "",
             "confirmed": {"tests_clean": r["tests_clean"], "tests_patched": r["tests_patched"],
                           "demo_exit_clean": r["demo_clean_exit"], "demo_exit_patched": r["demo_patched_exit"],
